@@ -1,3 +1,4 @@
+import pickle
 import threading as mt
 import multiprocessing as mp
 
@@ -65,11 +66,27 @@ class ProcessLine(spawn_context.Process):
         else:
             ex,tb = None,None
 
+        if ex is not None:
+            #The exception has to be pickled here and rebuilt in the parent process. One that can't be (it holds a handle,
+            #or its __init__ takes other arguments than it hands on to Exception) is replaced by its text. Otherwise
+            #either this process or the thread that waits for us dies and the error is never reported.
+            try:
+                pickle.loads(pickle.dumps(ex))
+            except Exception:
+                ex = CobaException(f"{type(ex).__name__}: {ex}")
+
         self._send.send((ex, tb, hasattr(self._line[0],'_poisoned') and self._line[0]._poisoned))
 
     def join(self) -> None:
-        super().join()
+        #The result is received while the process is still alive. A result that doesn't fit into the pipe's
+        #buffer (an exception with a very long message) keeps the process in send until somebody receives it.
+        while self.is_alive() and not self._result_ready(): pass
         self._get_result()
+        super().join()
+
+    def _result_ready(self) -> bool:
+        with self._lock:
+            return self._recv.closed or self._recv.poll(.1)
 
     @property
     def pipeline(self) -> Line:
